@@ -1650,7 +1650,8 @@ impl UnicodeBuffer {
     /// Set the glyph value to replace not-found variation-selector characters with.
     #[inline]
     pub fn set_not_found_variation_selector_glyph(&mut self, glyph: u32) {
-        self.0.not_found_variation_selector = Some(glyph)
+        // Glyph ids are 16-bit everywhere in this crate (`GlyphId`, `as_glyph`).
+        self.0.not_found_variation_selector = Some(u32::from(glyph as u16))
     }
 
     /// Get the buffer language.
